@@ -96,6 +96,9 @@ type Path struct {
 	assertTO  int
 	initLock  bool
 	tags      []string
+	model     map[string]*Term
+	modelMemo map[int]*Term
+	choiceSeen map[string]bool
 	proved    map[int]int8
 	divs      []divRec
 	divCache  map[string]*Term
@@ -200,6 +203,9 @@ func (p *Path) assume(c *Term) {
 	}
 	p.pc = append(p.pc, c)
 	p.w.inc.Assert(c)
+	if p.model != nil && evalTerm(c, p.model, p.modelMemo) != TTrue {
+		p.model = nil // the cached model does not (provably) satisfy the new conjunct
+	}
 	p.learnEq(c)
 }
 
@@ -310,10 +316,27 @@ func (p *Path) feasible(c *Term) bool {
 	if c == TFalse {
 		return false
 	}
+	// a model of the current path condition that also satisfies c witnesses feasibility without a query
+	if p.model != nil {
+		if evalTerm(c, p.model, p.modelMemo) == TTrue {
+			atomic.AddInt64(&statModelHits, 1)
+			return true
+		}
+	}
 	s := p.w.inc
 	s.Push()
 	s.Assert(c)
 	r := s.Check(p.eng.cfg.FeasTimeoutMS)
+	if r == "sat" && p.knobs["model_cache"] != 0 {
+		syms := collectSyms(append(append([]*Term{}, p.pc...), c))
+		if len(syms) <= 120 {
+			m := s.Model(syms)
+			if len(m) == len(syms) {
+				p.model = m
+				p.modelMemo = map[int]*Term{}
+			}
+		}
+	}
 	s.Pop()
 	if strings.HasPrefix(r, "error") {
 		p.eng.note("solver-error", r)
@@ -382,6 +405,26 @@ func (p *Path) decide(conds []*Term) int {
 	p.prefix = append(p.prefix, ch)
 	p.assume(conds[ch])
 	return ch
+}
+
+// decideFree: n-way fork on a fresh selector; every alternative is feasible by construction (no solver query).
+func (p *Path) decideFree(conds []*Term) int {
+	if p.pos < len(p.prefix) {
+		ch := p.prefix[p.pos]
+		p.pos++
+		p.decisions = append(p.decisions, ch)
+		p.assume(conds[ch])
+		return ch
+	}
+	base := append([]int(nil), p.decisions...)
+	for alt := len(conds) - 1; alt >= 1; alt-- {
+		p.eng.enqueue(append(append([]int(nil), base...), alt))
+	}
+	p.pos++
+	p.decisions = append(p.decisions, 0)
+	p.prefix = append(p.prefix, 0)
+	p.assume(conds[0])
+	return 0
 }
 
 func (p *Path) branch(c *Term) bool {
@@ -575,6 +618,7 @@ func (p *Path) assertTerm(c *Term, label string) {
 }
 
 var dumpCounter int64
+var statModelHits int64
 
 func (p *Path) dumpQuery(o *Obligation, neg *Term) {
 	if p.eng.cfg.DumpDir == "" {
@@ -636,6 +680,25 @@ func (e *Engine) RunHarness(fn *ssa.Function) {
 	e.queue = [][]int{{}}
 	e.active = 0
 	var wg sync.WaitGroup
+	done := make(chan struct{})
+	go func() {
+		t0 := time.Now()
+		tick := time.NewTicker(30 * time.Second)
+		defer tick.Stop()
+		for {
+			select {
+			case <-done:
+				return
+			case <-tick.C:
+				e.mu.Lock()
+				q, a, no := len(e.queue), e.active, len(e.obligations)
+				e.mu.Unlock()
+				fmt.Fprintf(os.Stderr, "  ... %s %.0fs paths=%d infeasible=%d queue=%d active=%d obligations=%d violations=%d queries=%d\n", fn.Name(), time.Since(t0).Seconds(),
+					atomic.LoadInt64(&e.pathsDone), atomic.LoadInt64(&e.pathsInfeas), q, a, no, atomic.LoadInt64(&e.violations), atomic.LoadInt64(&statQueries))
+			}
+		}
+	}()
+	defer close(done)
 	for i := 0; i < e.cfg.Workers; i++ {
 		wg.Add(1)
 		go func(id int) {
